@@ -348,3 +348,20 @@ def c14_units(tier, seed):
 
 PROPS["C14"] = dict(units=c14_units, bounds_text="every day of every month of every year present in the packed table (plus the year before and after): day lookup with symbolic day, month/year views, target view per day; workday stepping |n|<=3 (quick) / 6 (thorough) and pay rate for every day of the listed table years",
                     outside="HolidayUtil.Fix with symbolic fix-up strings (in-place rewriting of the packed table is beyond the string model); larger step counts")
+
+
+def c09_units(tier, seed):
+    q = tier == "quick"
+    us = []
+    pairs = [(2020, 1990)] if q else [(2020, 1990), (15, 16), (9992, 9993), (1582, 2033)]
+    for (A, B) in pairs:
+        for X in range(7):
+            us.append(dict(id=f"C09a[A={A},B={B},X={X}]", harness="calendar.VH_C09_History", params={"A": A, "B": B, "X": X}))
+        us.append(dict(id=f"C09b[A={A},B={B}]", harness="calendar.VH_C09_LockDiscipline", params={"A": A, "B": B, "ENV": 1}))
+        us.append(dict(id=f"C09c[Y={A}]", harness="calendar.VH_C09_SharedReads", params={"Y": A}))
+    return us
+
+
+PROPS["C09"] = dict(units=c09_units, bounds_text="histories: every sequence of 3 calls from a 7-entry menu (two years' tables, conversions, recovered panics on invalid input and on an absurd year) before the observed call, for each menu entry as observed call; concurrency: one critical-section step of NewLunarYear under arbitrary interference at every lock acquisition (cache empty / other year / same year), lock released on every path incl. panics; every read-only accessor free of unprotected writes to shared memory (lockset argument: no two concurrent readers can race)",
+                    outside="goroutine scheduling below critical-section granularity is covered only through the lockset argument (all accesses to the cache are inside the lock; readers write nothing); weak memory; HolidayUtil.Fix (a documented mutator); more than 3-call histories",
+                    assumptions=["sync.Mutex is modelled as a held flag; Lock on a held mutex in a sequential history is reported as the library being blocked", "environment model at Lock: protected state is re-chosen within the cache invariant (nil, or a table that equals the sequentially computed table of its year)"])
